@@ -2,7 +2,7 @@
    The string scan itself is Model/AcScan.v (`var_step`: insert then truncate; `scan_single_variable`:
    test, push, test).  Here: the raw path driven by an observed match sequence, and the checks a
    reported list must pass.  Definitions only. *)
-From Boreal Require Import Base.Prelude Base.ListX Base.Bytes Model.Literals Model.AcScan.
+From Boreal Require Import Base.Prelude Base.ListX Base.Bytes Model.Literals Model.AcScan Spec.TextSpec.
 
 (* ---- raw matchers: `find_next_match_at(mem, o)` of a region, read off the matches an unlimited scan
    of that region reported (U, ascending): the first one starting at or after o *)
@@ -44,13 +44,26 @@ Definition limit_spec_ok (regions : list fregion) (prm : sparams) (u t : list sm
   && forallb (fun x => memb smatch_eqb x u) t
   && (if nlen u <=? p_max_nb_matches prm then list_eqb smatch_eqb t u else true).
 
+(* the record is an occurrence of THAT string: for a text string, offset / length / key / data are those
+   of one of the declaration's own encodings occurring there in the region whose base it carries
+   (Spec/TextSpec.v); for the other kinds membership in the list `u` the string reports when it is
+   compiled ALONE (limit_spec_ok) plays this role *)
+Definition text_occurrence (d : tdecl) (regions : list fregion) (max_len : N) (x : smatch) : bool :=
+  existsb (fun r =>
+      negb (f_fail r) && (f_start r =? sm_base x)
+      && record_ok d (f_mem r) max_len (sm_off x) (sm_len x) (sm_key x) (sm_data x)
+      && unxor_ok d (f_mem r) (sm_off x) (sm_len x) (sm_key x))
+    regions.
+
 Inductive lkind :=
 | KText (d : tdecl)      (* MatcherKind::Literals of a text string: fully modelled *)
 | KRaw                   (* MatcherKind::Raw: the loop of scan_single_variable is modelled, the regex is not *)
 | KOther.                (* Atomized: checked against the specification only *)
 
 (* kind, regions (a direct scan = one region at 0), params of the limited run, the limit used for
-   the "unlimited" run, U, T, and whether the probe rule `#a == min(|U|, lim)` matched *)
+   the "unlimited" run, U = what the string reports compiled alone without limit, T = what it reports
+   under the limit inside its rule set (other rules, namespaces, global / private rules around it),
+   and whether the probe rule `#a == min(|U|, lim)` matched *)
 Definition C14_case (k : lkind) (regions : list fregion) (prm : sparams) (unl : N)
            (u t : list smatch) (probe : bool) : bool * bool * N :=
   let prm_u := {| p_match_max_length := p_match_max_length prm; p_max_nb_matches := unl |} in
@@ -60,5 +73,9 @@ Definition C14_case (k : lkind) (regions : list fregion) (prm : sparams) (unl : 
    | KRaw => list_eqb smatch_eqb t (model_raw_fragmented prm u regions)
    | KOther => true
    end,
-   limit_spec_ok regions prm u t && probe && (nlen u <? unl),
+   limit_spec_ok regions prm u t && probe && (nlen u <? unl)
+   && match k with
+      | KText d => forallb (text_occurrence d regions (p_match_max_length prm)) t
+      | _ => true
+      end,
    0).
